@@ -138,6 +138,9 @@ package chain
 // nil cannot be queued (AddTransfer / AddSignedTransfer are the only writers and dereference their argument)
 //@   ensures forall i in 0..len(payload(balances, StateContext).transfers) :: payload(balances, StateContext).transfers[i] != nil
 //@   ensures forall i in 0..len(payload(balances, StateContext).signedTransfers) :: payload(balances, StateContext).signedTransfers[i] != nil
+// what a contract queues leaves the sender's or the called contract's account, spelled exactly as in the
+// transaction (AddTransfer - the only way to queue - is verified to accept nothing else, C04)
+//@   ensures forall i in 0..len(payload(balances, StateContext).transfers) :: payload(balances, StateContext).transfers[i].ClientID == txn.ClientID || payload(balances, StateContext).transfers[i].ClientID == txn.ToClientID
 
 //@ func (*Chain).emitUserEvent
 //@   trusted
@@ -164,6 +167,9 @@ package chain
 // queued is applied - only the fee transfer to the miner contract - and its events were replaced
 // by the single error event before the fee was queued
 //@   requires txn.Status != 2
+// ASSUMPTION: the called address is not a re-spelling of the sender's own id (a contract address is a
+// fixed lower-case constant; a send to one's own id in another spelling is rejected by transferAmount)
+//@   requires txn.ToClientID != txn.ClientID ==> acct(txn.ToClientID) != acct(txn.ClientID)
 //@   at-call EmitError assert[fresh-context-for-failed-call] len(sctx.transfers) == 0 && len(sctx.signedTransfers) == 0 && len(sctx.events) == 0 && $scWrites == 0
 //@   at-call GetTransfers assert[failed-call-only-fee-transfer] txn.Status == 2 ==> len(sctx.transfers) <= 1 && (len(sctx.transfers) == 1 ==> sctx.transfers[0].ClientID == txn.ClientID && sctx.transfers[0].Amount == txn.Fee)
 //@   at-call GetSignedTransfers assert[failed-call-no-signed-transfer] txn.Status == 2 ==> len(sctx.signedTransfers) == 0
@@ -179,6 +185,7 @@ package chain
 //@   loop 1 invariant forall k string :: $nonce[k] == old($blockNonce[k]) && $blockNonce[k] == old($blockNonce[k]) && $blockBal[k] == old($blockBal[k])
 // (C04) applying the queued transfers lowers the sender's balance by at most the validated total
 //@   loop 1 invariant senderDebit(sctx, len(sctx.transfers)) <= txn.Value + txn.Fee
+//@   loop 1 invariant forall i in 0..len(sctx.transfers) :: sctx.transfers[i].ClientID == txn.ClientID || sctx.transfers[i].ClientID == txn.ToClientID
 //@   loop 1 invariant $bal[acct(txn.ClientID)] >= old($blockBal[acct(txn.ClientID)]) - senderDebit(sctx, $idx + 1)
 //@   at-call GetSignedTransfers assert[sender-loses-at-most-value-plus-fee] $bal[acct(txn.ClientID)] >= old($blockBal[acct(txn.ClientID)]) - (txn.Value + txn.Fee)
 //@   loop 3 header "for _, signedTransfer := range sctx.GetSignedTransfers()"
